@@ -36,6 +36,7 @@ def main():
     ap.add_argument("--thorough", action="store_true")
     ap.add_argument("--skip-tests", action="store_true")
     ap.add_argument("--checks", default="")
+    ap.add_argument("--no-check", action="store_true", help="only confirm demo/tests; merge the outcome into an existing seeded/<name>/meta.json")
     a = ap.parse_args()
     name = a.name or (a.id + "_" + os.path.basename(os.path.abspath(a.src)))
     wt = "/tmp/seed_wt_%s_%d" % (name, os.getpid())
@@ -75,6 +76,14 @@ def main():
             rc, out = sh("go test -vet=off -count=1 %s" % a.pkgs, cwd=wt)
             step("existing tests pass with the patch: %s" % a.pkgs, rc == 0, out)
         verdicts = {}
+        if a.no_check:
+            d = os.path.join("/verif/seeded", name, "meta.json")
+            if os.path.exists(d):
+                meta = json.load(open(d))
+                meta["confirmed_by_lead"] = res["steps"]
+                json.dump(meta, open(d, "w"), indent=1)
+            print("CONFIRMED %s: %s" % (name, all(s["ok"] for s in res["steps"])))
+            return 0
         for cid in [a.id] + [c for c in a.checks.split(",") if c]:
             for tier in ["quick"] + (["thorough"] if a.thorough else []):
                 t = time.time()
